@@ -19,7 +19,7 @@ ASSUMPTIONS = ['contains/numberize queried with domain values and integers only 
 
 
 def plan(tier, seed):
-    return dict(n=400 if tier == 'quick' else 120000, budget_s=60 if tier == 'quick' else 840, case_timeout=60)
+    return dict(n=1000 if tier == 'quick' else 120000, budget_s=60 if tier == 'quick' else 840, case_timeout=60)
 
 
 def gen_values(rng, size):
